@@ -258,7 +258,7 @@ fn oracle_strtab(off: usize, data: &[u8]) -> V {
 }
 
 /// C10: reference truth tables for ident parsing
-fn ident_expect(spec: &str, d: &[u8]) -> String {
+pub fn ident_expect(spec: &str, d: &[u8]) -> String {
     if d.len() < 16 {
         return "err SliceReadError(0,16)".into();
     }
